@@ -45,6 +45,14 @@ func (r *Run) replayObligation(o *Obligation) *ReplayFile {
 		return rf
 	}
 	if o.Res.Status != "sat" || o.replay == nil {
+		// a fixed scenario registered for this obligation?
+		if out, ok := runScenarios(r.Repo, r.Verif, []string{o.Name}); ok && strings.Contains(out, "REPLAY-MISMATCH "+o.Name) {
+			rf.Confirmed = true
+			rf.Output = trunc(out, 3000)
+			rf.Pkg = "interp"
+			rf.Note = "fixed scenario of /verif/replays/helpers run against the real code"
+			return rf
+		}
 		rf.Note = "no model or no replay template: obligation reported without a failing input"
 		return rf
 	}
@@ -287,9 +295,9 @@ func runOverlayTest(repo, pkgDir, src, verif string) (string, error) {
 	ov := map[string]map[string]string{"Replace": {filepath.Join(repo, pkgDir, "zz_verif_replay_test.go"): testFile}}
 	// optional helper file with native oracles
 	pkgName := filepath.Base(pkgDir)
-	helper := filepath.Join(verif, "replays", "helpers", pkgName+"_helpers_test.go")
-	if _, err := os.Stat(helper); err == nil {
-		ov["Replace"][filepath.Join(repo, pkgDir, "zz_verif_helpers_test.go")] = helper
+	helpers, _ := filepath.Glob(filepath.Join(verif, "replays", "helpers", pkgName+"_*_test.go"))
+	for _, h := range helpers {
+		ov["Replace"][filepath.Join(repo, pkgDir, "zz_verif_"+filepath.Base(h))] = h
 	}
 	ovData, _ := json.Marshal(ov)
 	ovFile := filepath.Join(tmp, "overlay.json")
@@ -302,6 +310,34 @@ func runOverlayTest(repo, pkgDir, src, verif string) (string, error) {
 	cmd.Stderr = &out
 	err = cmd.Run()
 	return out.String(), err
+}
+
+// runScenarios runs the helper package's scenario runner for the given obligations.
+func runScenarios(repo, verif string, obligations []string) (string, bool) {
+	helpers, _ := filepath.Glob(filepath.Join(verif, "replays", "helpers", "interp_*_test.go"))
+	if len(helpers) == 0 {
+		return "", false
+	}
+	tmp, err := os.MkdirTemp("", "govc-scn-")
+	if err != nil {
+		return "", false
+	}
+	defer os.RemoveAll(tmp)
+	ov := map[string]map[string]string{"Replace": {}}
+	for _, h := range helpers {
+		ov["Replace"][filepath.Join(repo, "interp", "zz_verif_"+filepath.Base(h))] = h
+	}
+	data, _ := json.Marshal(ov)
+	ovFile := filepath.Join(tmp, "overlay.json")
+	os.WriteFile(ovFile, data, 0o644)
+	cmd := exec.Command("go", "test", "-overlay", ovFile, "-vet=off", "-count=1", "-timeout", "120s", "-run", "TestZZVerifScenario$", "-v", "./interp/")
+	cmd.Dir = repo
+	cmd.Env = append(os.Environ(), "GOFLAGS=-mod=mod", "GOPROXY=off", "GOSUMDB=off", "GOTOOLCHAIN=local", "VERIF_OBLIGATIONS="+strings.Join(obligations, "\n"))
+	var out bytes.Buffer
+	cmd.Stdout = &out
+	cmd.Stderr = &out
+	cmd.Run()
+	return out.String(), true
 }
 
 func cmdReplay(path, repo string) int {
